@@ -227,6 +227,16 @@ def catalogue():
         h = wn.options.hydraulic
         h.viscosity = 1.1; h.specific_gravity = 0.98; h.trials = 55; h.accuracy = 0.0005; h.unbalanced = "CONTINUE"; h.unbalanced_value = 12
         h.demand_multiplier = 1.3; h.emitter_exponent = 0.6; h.checkfreq = 3; h.maxcheck = 11; h.damplimit = 0.01
+    @dev("o_headloss_dw", "headloss")      # Darcy-Weisbach: roughness heights in metres (written in mm / millifeet)
+    def _(wn):
+        wn.options.hydraulic.headloss = "D-W"
+        for i, (n, p) in enumerate(wn.pipes()):
+            p.roughness = [0.00026, 0.0015, 4.5e-05, 0.0003][i % 4]
+    @dev("o_headloss_cm", "headloss")      # Chezy-Manning: roughness is Manning's n
+    def _(wn):
+        wn.options.hydraulic.headloss = "C-M"
+        for i, (n, p) in enumerate(wn.pipes()):
+            p.roughness = [0.012, 0.015, 0.011, 0.02][i % 4]
     @dev("o_pdd")
     def _(wn):
         h = wn.options.hydraulic
@@ -276,6 +286,14 @@ def catalogue():
     def _(wn):
         wn.add_control("c2", C.Control(C.ValueCondition(wn.get_node("T1"), "level", "<", 1.75), act(wn, "p4", "status", LS.Open)))
         wn.add_control("c3", C.Control(C.ValueCondition(wn.get_node("T1"), "level", ">", 5.25), act(wn, "p4", "status", LS.Closed)))
+    @dev("rk_rule_then_simple", "rk")       # API order: a rule registered BEFORE simple controls
+    def _(wn):
+        wn.add_control("ruleA", C.Rule(C.ValueCondition(wn.get_node("T1"), "level", ">=", 5.5), [act(wn, "p4", "status", LS.Closed)], priority=3))
+        wn.add_control("cA", C.Control(C.SimTimeCondition(wn, "=", 2 * 3600), act(wn, "p3", "status", LS.Closed)))
+        wn.add_control("cB", C.Control(C.ValueCondition(wn.get_node("T1"), "level", "<", 1.5), act(wn, "p4", "status", LS.Open)))
+    @dev("r_named_differently", "rk")       # a rule whose own name differs from the key it is registered under
+    def _(wn):
+        wn.add_control("night_rule", C.Rule(C.SimTimeCondition(wn, ">=", 5 * 3600), [act(wn, "p3", "status", LS.Closed)], priority=2, name="close_p3"))
     @dev("r_and_else", "rule1")
     def _(wn):
         cond = C.AndCondition(C.ValueCondition(wn.get_node("T1"), "level", "<", 2.0), C.SimTimeCondition(wn, ">=", 7200))
